@@ -215,7 +215,7 @@ Definition is_init_req (a : action) : bool := match a with ARequest _ true => tr
 
 (* ---- the batched commits of a visit's admitted children ---- *)
 Lemma flush_size_pos : (1 <= flush_size)%nat.
-Proof. unfold flush_size. apply le_n_S, Nat.le_0_l. Qed.
+Proof. apply Nat.leb_le. vm_compute. reflexivity. Qed.
 
 Lemma chunks_In fuel : forall l k, In k (chunks fuel l) -> k <> [] /\ incl k l.
 Proof.
